@@ -29,7 +29,8 @@ def build_lines(st, decorate, rnd):
         if decorate and n["sr"] == 1 and idnum(n["id"]) % 4 == 2:
             tags = [f"LN:i:{n['ln']}"]       # a segment outside the rGFA reference annotation: no SN / SO / SR at all
         if decorate:
-            extra = [["xn:i:-3"], ["xx:Z:a:b", "xf:f:1e-05"], ["xs:Z:two words "], ["xa:A:*"]][idnum(n["id"]) % 4]
+            # (numbers are kept as WRITTEN: a sign, leading zeros, a float without integer part are all valid spellings)
+            extra = [["xn:i:-3", "xr:i:0042"], ["xx:Z:a:b", "xf:f:1e-05", "xd:i:+3"], ["xs:Z:two words ", "xg:f:.5"], ["xa:A:*", "xh:f:-.25e1"]][idnum(n["id"]) % 4]
             tags += extra
         if decorate and idnum(n["id"]) % 5 == 3:      # LN is optional when the sequence is given: nothing may invent it
             tags = [t for t in tags if not t.startswith("LN:")]
